@@ -257,10 +257,21 @@ def check_hand(res, rng, carry):
                 fin = replay_stacks(hh)
                 gs = [Decimal(str(x)) for x in fin.stacks]
                 es = [Decimal(str(x)) * sc for x in s.stacks]
-                if not fin.status and gs != es and sc != 1 and all(
-                        abs(a - b) < sc for a, b in zip(gs, es)) \
-                        and sum(gs) == sum(es):
-                    # a chopped pot: the Decimal replay splits the odd cent
+                # odd cents of chopped pots in the original (integer-cent)
+                # hand: per push to >= 2 winners, what the first winner got
+                # on top of the equal share
+                odd = 0
+                for o in s.operations:
+                    if type(o).__name__ == 'ChipsPushing':
+                        pos = [a for a in o.amounts if a > 0]
+                        if len(pos) >= 2:
+                            odd += max(pos) - min(pos)
+                if not fin.status and gs != es and sc != 1 and odd and all(
+                        abs(a - b) < odd * sc for a, b in zip(gs, es)) \
+                        and abs(sum(gs) - sum(es)) < Decimal('1e-18'):
+                    # (28-digit Decimal thirds do not add up exactly)
+                    # a chopped pot: the Decimal replay divides the odd
+                    # cent(s) exactly, the log gives them to one player
                     kf = 'decimal_chop_subcent'
                 if fin.status or gs != es:
                     problems.append(
